@@ -37,3 +37,14 @@ package certs
 //@   ensures [C11] result1 == nil && old(in(ca.certs.ma, splithost(sid(host)))) && old(ca.certs.ma[splithost(sid(host))].Leaf.NotAfter) >= now ==> result0 == old(ca.certs.ma[splithost(sid(host))])
 //@   ensures [C11] result1 == nil ==> result0 != nil && in(ca.certs.ma, splithost(sid(old(host)))) && ca.certs.ma[splithost(sid(old(host)))] == result0
 //@   ensures [C11] result1 == nil ==> result0.Leaf != nil && result0.Leaf.NotAfter >= old(now)
+
+// Only a CA certificate is accepted as the signing certificate (a leaf with CA:FALSE cannot sign:
+// every tunnel certificate issued under it would fail chain verification).
+//@ func loadX509KeyPair
+//@   trusted
+//@   pure
+//@   ensures result2 == nil ==> result0 != nil && allocated(result0)
+
+//@ props C11 C16
+//@ func NewPrivateCA
+//@   ensures [C11] result1 == nil ==> result0 != nil && result0.cert != nil && result0.cert.IsCA
